@@ -54,6 +54,31 @@ def run(tier, seed, only=None):
         nominal.update({"circulations[%d]" % i: -0.7 - 0.1 * i for i in range(npan)})
         run_obligations(rep, "ground effect vs method of images [%s]" % cn, obs, timeout, replay=rp, levels=(1, 2), relate=[],
                         family=lambda ob: "ground effect: " + ob.meta["family"], fixed={"alpha": (4.0, -4.0), "v": 10.0, "rho": 1.1, "height_agl": 3.0}, nominal=nominal)
+    # the height above ground is a length: the components that use it add it only to lengths (dimensional analysis of their
+    # symbolic execution, confirmed by feeding the real component the same height in m and in km)
+    from props import c01, c20
+
+    hits = []
+    for case in [c for c in c01.build_cases("quick") if c.name.startswith("VortexMesh(ground)")]:
+        r = case.build()
+        ins = r.sym_inputs(case.overrides(r) if case.overrides else None)
+        ps = r.run(ins, assumptions=case.assumptions(ins) if case.assumptions else [], max_paths=case.max_paths, extra=case.extra)
+        rep.encode(type(r.comp))
+        c20.dims_of_case(rep, case, r, ps, hits)
+        rep.counts["obligations"] += 1
+        rep.counts["discharged"] += 0 if hits else 1
+    done = set()
+    for (cname, comp_cls, msg, spec) in hits:
+        if (comp_cls, spec.get("var")) in done:
+            continue
+        done.add((comp_cls, spec.get("var")))
+        rep.counts["candidates"] += 1
+        ok, what = c20.replay_dimension(spec)
+        if ok:
+            rep.violation("ground effect: the height above ground enters as a length", msg + " :: " + what, {"case": cname, "dims": True})
+        else:
+            rep.not_reproduced.append({"id": "dimension conflict in %s" % cname, "why": msg + " :: " + what})
+    rep.log("dimensional analysis of VortexMesh with a ground plane: %d conflict(s)" % len(done))
     rep.stubs.add("vortex kernels -> uninterpreted functions on both sides")
     rep.bounds = {"cases": [c[0] for c in cfgs]}
     rep.assumptions = ["real arithmetic", "zero sideslip", "root on the symmetry plane", "not decided: convergence to free air as the height grows (a limit)",
